@@ -22,7 +22,7 @@ CONSTANTS Routers,    \* \subseteq Nbrs
           Stubs,      \* {<<host, router it is attached to>>}; hosts \subseteq Nbrs
           Links,      \* {{r, s}} between routers
           S,          \* period of the full update (SEND_TIMER)
-          Phases,     \* possible offsets of a router's first periodic update (subset of 1..S)
+          BootChoices,\* set of [Routers -> 1..S]: when each router's first periodic update is due
           Mtu,
           Dts, MaxFails,
           D
@@ -132,7 +132,7 @@ Tick(d) ==
   /\ UNCHANGED <<chan, up>>
   /\ Log("Advance", [d |-> d], Obs(net', chan, NoSent))
 
-Next == \/ \E f \in [Routers -> Phases] : Boot(f)
+Next == \/ \E f \in BootChoices : Boot(f)
         \/ \E r \in Routers : Send(r) \/ Fire(r)
         \/ \E s, r \in Routers : Deliver(s, r)
         \/ \E r \in Routers, k \in Keys : Timeout(r, k) \/ Garbage(r, k)
